@@ -377,32 +377,39 @@ structure ALoop (M : Type) where
   prevEval : Nat
   branchSum : Nat
 
+/-- one iteration of `Analyze`'s deepening loop: `inl` = go on with the next depth, `inr` = leave the loop
+(`break`): cancelled, decisive value, or the `MaxEvals` estimate says stop -/
+def analyzeStep [DecidableEq M] (g : Game P M) (cfg : Cfg) (o : Oracle M) (p : P) (base : Int)
+    (i : Int) (a : ALoop M) (s : Eng M) : Except Err ((ALoop M × Eng M) ⊕ (ALoop M × Eng M)) := do
+  let s := { s with st := { depth := i + base } }
+  let r ← pvSearch g cfg o 0 p (i + base) a.ms (Facts.minEval - 1) (Facts.maxEval + 1) s
+  let nv := r.1.2
+  -- `if next == nil || atomic.LoadInt32(m.cancel) != 0`: the flag is loaded only when `next != nil`
+  match r.1.1 with
+  | none => pure (.inr ({ a with st := { a.st with canceled := true } }, r.2))
+  | some next =>
+    let (c, s) := load o r.2
+    if c then pure (.inr ({ a with st := { a.st with canceled := true } }, s)) else
+    let st := s.st.merge a.st
+    let branchSum := if i > 1 then a.branchSum + s.st.evaluated / (a.prevEval + 1) else a.branchSum
+    let a : ALoop M := { ms := next, v := nv, st := st, prevEval := s.st.evaluated, branchSum := branchSum }
+    if nv > Facts.winThreshold || nv < -Facts.winThreshold then pure (.inr (a, s))
+    else if cfg.maxEvals > 0 && i + base != cfg.depth then
+      let branchEstimate : Nat := if i > 2 then branchSum / (i - 1).toNat else 5
+      if s.st.evaluated * branchEstimate > cfg.maxEvals then pure (.inr (a, s))
+      else pure (.inl (a, s))
+    else pure (.inl (a, s))
+
 /-- `for i := 1; i+base <= m.Cfg.Depth; i++ { … }`; `n` bounds the remaining iterations -/
 def analyzeLoop [DecidableEq M] (g : Game P M) (cfg : Cfg) (o : Oracle M) (p : P) (base : Int) :
     Nat → Int → ALoop M → Eng M → Except Err (ALoop M × Eng M)
   | 0, _, a, s => .ok (a, s)
   | n + 1, i, a, s =>
     if !(i + base ≤ cfg.depth) then .ok (a, s) else
-    let s := { s with st := { depth := i + base } }
-    match pvSearch g cfg o 0 p (i + base) a.ms (Facts.minEval - 1) (Facts.maxEval + 1) s with
+    match analyzeStep g cfg o p base i a s with
     | .error e => .error e
-    | .ok ((next, nv), s) =>
-      -- `if next == nil || atomic.LoadInt32(m.cancel) != 0`: the flag is loaded only when `next != nil`
-      let (c, s) := match next with
-        | some _ => load o s
-        | none => (true, s)
-      match next, c with
-      | some next, false =>
-        let st := s.st.merge a.st
-        let branchSum := if i > 1 then a.branchSum + s.st.evaluated / (a.prevEval + 1) else a.branchSum
-        let a : ALoop M := { ms := next, v := nv, st := st, prevEval := s.st.evaluated, branchSum := branchSum }
-        if nv > Facts.winThreshold || nv < -Facts.winThreshold then .ok (a, s)
-        else if cfg.maxEvals > 0 && i + base != cfg.depth then
-          let branchEstimate : Nat := if i > 2 then branchSum / (i - 1).toNat else 5
-          if s.st.evaluated * branchEstimate > cfg.maxEvals then .ok (a, s)
-          else analyzeLoop g cfg o p base n (i + 1) a s
-        else analyzeLoop g cfg o p base n (i + 1) a s
-      | _, _ => .ok ({ a with st := { a.st with canceled := true } }, s)
+    | .ok (.inr r) => .ok r
+    | .ok (.inl (a, s)) => analyzeLoop g cfg o p base n (i + 1) a s
 
 /-- `Analyze` (context without deadline).  The per-call cancel flag is fresh: the load/evaluation counters
 the cancel oracle is indexed by restart at 0. -/
